@@ -662,23 +662,33 @@ def run_cases(ck, hb, db, cases, label, batch=60, hist=8, text=True):
     with ThreadPoolExecutor(max_workers=int(os.environ.get("VERIF_EMU_JOBS", "3"))) as ex:
         built = list(ex.map(build, parts))
     emu.compile_s = time.time() - t_build       # wall time of the (parallel) g++ runs
-    for part, (exe, err) in zip(parts, built):
-        if exe is None:
-            # find the culprit(s) one by one: a translation that is not valid C++ is itself a failure
-            for c in part:
-                exe1, err1 = emu.compile([emu_unit(c.kid, "k%d" % c.kid, c.ref_body(), sources[c.kid], c.extra)], [c.kid])
-                if exe1 is None:
-                    msg = [l for l in err1.splitlines() if "error" in l][:2]
-                    ck.report_failure(label, [c.op], ["translated source does not compile: " + " | ".join(msg)[:300]], ["compiles"],
-                                      ["translated source of kernel %d is not valid C++: %s" % (c.kid, " | ".join(msg)[:300])])
-                else:
-                    r, rc, se = emu.run(exe1, ["%d %s" % (c.kid, vals_line(v)) for v in c.values])
-                    results.update(r)
-            continue
+    def run_part(part, exe):
         r, rc, se = emu.run(exe, ["%d %s" % (c.kid, vals_line(v)) for c in part for v in c.values])
         results.update(r)
         if rc != 0:
             ck.notes.append("emulation program ended rc=%d: %s" % (rc, se.strip()[-200:]))
+
+    def bisect(part, err):
+        """a batch did not compile: retry once (transient failures under load), then halve until the kernels whose
+        translation is not valid C++ are isolated — that is itself a failure of the property's observable"""
+        exe, err2 = build(part)
+        if exe is not None:
+            return run_part(part, exe)
+        if len(part) == 1:
+            c = part[0]
+            msg = [l for l in err2.splitlines() if "error" in l][:2]
+            ck.report_failure(label, [c.op], ["translated source does not compile: " + " | ".join(msg)[:300]], ["compiles"],
+                              ["translated source of kernel %d is not valid C++: %s" % (c.kid, " | ".join(msg)[:300])])
+            return
+        h = len(part) // 2
+        bisect(part[:h], err2)
+        bisect(part[h:], err2)
+
+    for part, (exe, err) in zip(parts, built):
+        if exe is None:
+            bisect(part, err)
+        else:
+            run_part(part, exe)
     C["emu_compile_s_" + label] = round(emu.compile_s, 1)
     C["emu_run_s_" + label] = round(emu.run_s, 1)
     C["emu_batches_" + label] = emu.nbatch
